@@ -327,6 +327,7 @@ def judge(ctx, work, rows, died):
         "result_kinds": kinds, "reply_constructors_used": len(ctors_used), "replies_gzip_packed": gz,
         "refused_before_sending_consistently_with_encoder_model": stats["send_refused_consistently"],
         "calls_outside_spec_subset": stats["outside_spec"], "process_deaths": len(died),
+        "calls_whose_first_copy_was_rejected_with_bad_server_salt": stats.get("calls_whose_first_copy_was_rejected_with_bad_server_salt", 0),
         "rule": "every method of *telegram.Client whose code lies in methods_gen.go / methods_special.go (reflection + runtime.FuncForPC, cross-checked "
                 "with the source text); per argument pattern a <Name>Params value with a different non-zero value in every field "
                 "(ints 1000+k, longs 10^12+k, strings arg<k>, bools by bit patterns, objects/vectors from the tlh generator), call arguments derived from it; "
